@@ -93,6 +93,9 @@ def _mutants_of(text: str, rng: random.Random, limit: int):
             muts.append(('dangling-prefix:' + m.group(1), text[:m.start(2)] + 'zz:' + v.split(':', 1)[1] + text[m.end(2):]))
             muts.append(('retarget:' + m.group(1), text[:m.start(2)] + v.split(':', 1)[0] + ':NoSuchThing' + text[m.end(2):]))
         muts.append(('empty-value:' + m.group(1), text[:m.start(2)] + text[m.end(2):]))
+        if m.group(1) in ('minOccurs', 'maxOccurs', 'value') and re.fullmatch(r'-?\d+|unbounded', v):
+            for big in ('65536', '4294967296', '18446744073709551616', '-1'):
+                muts.append((f'extreme-number:{m.group(1)}={big}', text[:m.start(2)] + big + text[m.end(2):]))
     rng.shuffle(muts)
     muts = muts[:limit]
     # namespace URIs are schema-supplied text that the library slices and abbreviates: swap each URI of the document (all of its
@@ -123,6 +126,13 @@ FIXED = [
     ('empty-schema', '<xs:schema xmlns:xs="http://www.w3.org/2001/XMLSchema" targetNamespace="urn:a" xmlns:a="urn:a" elementFormDefault="qualified"></xs:schema>'),
     ('schema-without-components-but-import', '<xs:schema xmlns:xs="http://www.w3.org/2001/XMLSchema" targetNamespace="urn:a" xmlns:a="urn:a" elementFormDefault="qualified"><xs:import namespace="urn:b"/></xs:schema>'),
     ('deep-nested-sequences', '<xs:schema xmlns:xs="http://www.w3.org/2001/XMLSchema" targetNamespace="urn:a" xmlns:a="urn:a" elementFormDefault="qualified"><xs:complexType name="Deep"><xs:sequence><xs:sequence><xs:sequence><xs:sequence><xs:sequence><xs:sequence><xs:sequence><xs:sequence><xs:sequence><xs:sequence><xs:sequence><xs:sequence><xs:sequence><xs:sequence><xs:sequence><xs:sequence><xs:sequence><xs:sequence><xs:sequence><xs:sequence><xs:sequence><xs:sequence><xs:sequence><xs:sequence><xs:sequence><xs:sequence><xs:sequence><xs:sequence><xs:sequence><xs:sequence><xs:sequence><xs:sequence><xs:sequence><xs:sequence><xs:sequence><xs:sequence><xs:sequence><xs:sequence><xs:sequence><xs:sequence><xs:sequence><xs:sequence><xs:sequence><xs:sequence><xs:sequence><xs:sequence><xs:sequence><xs:sequence><xs:sequence><xs:sequence><xs:sequence><xs:sequence><xs:sequence><xs:sequence><xs:sequence><xs:sequence><xs:sequence><xs:sequence><xs:sequence><xs:sequence><xs:sequence><xs:sequence><xs:sequence><xs:sequence><xs:sequence><xs:sequence><xs:sequence><xs:sequence><xs:sequence><xs:sequence><xs:sequence><xs:sequence><xs:sequence><xs:sequence><xs:sequence><xs:sequence><xs:sequence><xs:sequence><xs:sequence><xs:sequence><xs:sequence><xs:sequence><xs:sequence><xs:sequence><xs:sequence><xs:sequence><xs:sequence><xs:sequence><xs:sequence><xs:sequence><xs:sequence><xs:sequence><xs:sequence><xs:sequence><xs:sequence><xs:sequence><xs:sequence><xs:sequence><xs:sequence><xs:sequence><xs:sequence><xs:sequence><xs:sequence><xs:sequence><xs:sequence><xs:sequence><xs:sequence><xs:sequence><xs:sequence><xs:sequence><xs:sequence><xs:sequence><xs:sequence><xs:sequence><xs:sequence><xs:sequence><xs:sequence><xs:sequence><xs:sequence><xs:sequence><xs:sequence><xs:sequence><xs:sequence><xs:sequence><xs:sequence><xs:sequence><xs:sequence><xs:sequence><xs:sequence><xs:sequence><xs:sequence><xs:sequence><xs:sequence><xs:sequence><xs:sequence><xs:sequence><xs:sequence><xs:sequence><xs:sequence><xs:sequence><xs:sequence><xs:sequence><xs:sequence><xs:sequence><xs:sequence><xs:sequence><xs:sequence><xs:sequence><xs:sequence><xs:sequence><xs:sequence><xs:sequence><xs:sequence><xs:sequence><xs:sequence><xs:sequence><xs:sequence><xs:sequence><xs:sequence><xs:sequence><xs:sequence><xs:sequence><xs:sequence><xs:sequence><xs:sequence><xs:sequence><xs:sequence><xs:sequence><xs:sequence><xs:sequence><xs:sequence><xs:sequence><xs:sequence><xs:sequence><xs:sequence><xs:sequence><xs:sequence><xs:sequence><xs:sequence><xs:sequence><xs:sequence><xs:sequence><xs:sequence><xs:sequence><xs:sequence><xs:sequence><xs:sequence><xs:sequence><xs:sequence><xs:sequence><xs:sequence><xs:sequence><xs:sequence><xs:sequence><xs:sequence><xs:sequence><xs:sequence><xs:sequence><xs:sequence><xs:sequence><xs:element name="x" type="xs:string"/></xs:sequence></xs:sequence></xs:sequence></xs:sequence></xs:sequence></xs:sequence></xs:sequence></xs:sequence></xs:sequence></xs:sequence></xs:sequence></xs:sequence></xs:sequence></xs:sequence></xs:sequence></xs:sequence></xs:sequence></xs:sequence></xs:sequence></xs:sequence></xs:sequence></xs:sequence></xs:sequence></xs:sequence></xs:sequence></xs:sequence></xs:sequence></xs:sequence></xs:sequence></xs:sequence></xs:sequence></xs:sequence></xs:sequence></xs:sequence></xs:sequence></xs:sequence></xs:sequence></xs:sequence></xs:sequence></xs:sequence></xs:sequence></xs:sequence></xs:sequence></xs:sequence></xs:sequence></xs:sequence></xs:sequence></xs:sequence></xs:sequence></xs:sequence></xs:sequence></xs:sequence></xs:sequence></xs:sequence></xs:sequence></xs:sequence></xs:sequence></xs:sequence></xs:sequence></xs:sequence></xs:sequence></xs:sequence></xs:sequence></xs:sequence></xs:sequence></xs:sequence></xs:sequence></xs:sequence></xs:sequence></xs:sequence></xs:sequence></xs:sequence></xs:sequence></xs:sequence></xs:sequence></xs:sequence></xs:sequence></xs:sequence></xs:sequence></xs:sequence></xs:sequence></xs:sequence></xs:sequence></xs:sequence></xs:sequence></xs:sequence></xs:sequence></xs:sequence></xs:sequence></xs:sequence></xs:sequence></xs:sequence></xs:sequence></xs:sequence></xs:sequence></xs:sequence></xs:sequence></xs:sequence></xs:sequence></xs:sequence></xs:sequence></xs:sequence></xs:sequence></xs:sequence></xs:sequence></xs:sequence></xs:sequence></xs:sequence></xs:sequence></xs:sequence></xs:sequence></xs:sequence></xs:sequence></xs:sequence></xs:sequence></xs:sequence></xs:sequence></xs:sequence></xs:sequence></xs:sequence></xs:sequence></xs:sequence></xs:sequence></xs:sequence></xs:sequence></xs:sequence></xs:sequence></xs:sequence></xs:sequence></xs:sequence></xs:sequence></xs:sequence></xs:sequence></xs:sequence></xs:sequence></xs:sequence></xs:sequence></xs:sequence></xs:sequence></xs:sequence></xs:sequence></xs:sequence></xs:sequence></xs:sequence></xs:sequence></xs:sequence></xs:sequence></xs:sequence></xs:sequence></xs:sequence></xs:sequence></xs:sequence></xs:sequence></xs:sequence></xs:sequence></xs:sequence></xs:sequence></xs:sequence></xs:sequence></xs:sequence></xs:sequence></xs:sequence></xs:sequence></xs:sequence></xs:sequence></xs:sequence></xs:sequence></xs:sequence></xs:sequence></xs:sequence></xs:sequence></xs:sequence></xs:sequence></xs:sequence></xs:sequence></xs:sequence></xs:sequence></xs:sequence></xs:sequence></xs:sequence></xs:sequence></xs:sequence></xs:sequence></xs:sequence></xs:sequence></xs:sequence></xs:sequence></xs:sequence></xs:sequence></xs:sequence></xs:sequence></xs:sequence></xs:sequence></xs:sequence></xs:sequence></xs:sequence></xs:sequence></xs:sequence></xs:sequence></xs:sequence></xs:complexType></xs:schema>'),
+    ('occurrence-products', '<xs:schema xmlns:xs="http://www.w3.org/2001/XMLSchema" targetNamespace="urn:a" xmlns:a="urn:a" elementFormDefault="qualified">'
+     '<xs:complexType name="Big"><xs:sequence><xs:sequence maxOccurs="65536"><xs:element name="a" type="xs:int" maxOccurs="65536"/>'
+     '<xs:choice maxOccurs="4294967295"><xs:element name="b" type="xs:int" maxOccurs="4294967295"/><xs:element name="c" type="xs:int" minOccurs="0" maxOccurs="2"/></xs:choice></xs:sequence>'
+     '<xs:sequence maxOccurs="4294967296"><xs:sequence maxOccurs="4294967296"><xs:element name="d" type="xs:int" maxOccurs="4294967296"/></xs:sequence></xs:sequence>'
+     '<xs:element name="e" type="xs:int" maxOccurs="18446744073709551615"/><xs:element name="f" type="xs:int" maxOccurs="18446744073709551616"/>'
+     '<xs:element name="g" type="xs:int" minOccurs="4294967296" maxOccurs="unbounded"/><xs:element name="h" type="xs:int" maxOccurs="-1"/><xs:element name="i" type="xs:int" maxOccurs="0"/>'
+     '</xs:sequence></xs:complexType></xs:schema>'),
     ('enumeration-without-value', '<xs:schema xmlns:xs="http://www.w3.org/2001/XMLSchema" targetNamespace="urn:a"><xs:simpleType name="T"><xs:restriction base="xs:string"><xs:enumeration/></xs:restriction></xs:simpleType></xs:schema>'),
 ]
 
